@@ -14,13 +14,14 @@ def run(idx, rep, tier):
         "(each local component is a non-negative multiple of the same direction component, a constant whose sign the path's "
         "tests justify, or zero; the cone's projection comparison picks the larger). R-MARGIN: inner support + margin * "
         "unit(d), delegation of the other methods. R-AXIS sibling agreement. R-AABBARGS for the support call sites. R-EAGER "
-        "for the support call sites (engine E1). Extremeness within 1e-9 L and history independence of the hill-climbing mesh "
-        "support are NOT decided.")
+        "for the support call sites (engine E1). R-QUERYSTATE: state written by a query reaches the result only as the start hint of the hill climb. "
+        "Extremeness within 1e-9 L and start-independence of the hill climb itself are NOT decided.")
     rep.assumptions = DOMAIN_D
     fr_rets = e2(idx)
     frame.r_frame(idx, rep, fr_rets, modules=MODS, floor=40)
     frame.r_frame_contracts(idx, rep, fr_rets, ("support", "utils"), floor=20, unknown_ceiling=20)
     signalign.r_signalign(idx, rep)
+    colliders.r_querystate(idx, rep)
     colliders.r_margin(idx, rep)
     colliders.r_axis(idx, rep)
     colliders.r_aabbargs(idx, rep)
